@@ -196,6 +196,78 @@ namespace
       }
   }
 
+  // ---- family 5: slabs and faults next to a pole, queried on and around the rotation axis ----
+  // At a pole the longitude of the query point is arbitrary and the closest-point iteration on the trench curve may not converge:
+  // a std::exception is fine, a crash or a hang is not.
+  void family_polar(std::vector<WCase> &out)
+  {
+    struct Tr { const char *name; std::string coords; };
+    const std::vector<Tr> trenches =
+    {
+      {"short nearly east-west trench at latitude 80", "[[10,80],[10.1,79.99999]]"},
+      {"short east-west trench at latitude 85", "[[-30,85],[-29.8,85]]"},
+      {"trench along a meridian ending 2 degrees from the pole", "[[40,80],[40,88]]"},
+      {"bent trench around the pole", "[[0,86],[90,87],[180,86]]"},
+      {"short nearly east-west trench at latitude -80", "[[100,-80],[100.1,-79.99999]]"},
+    };
+    for (int fault = 0; fault < 2; ++fault) for (auto &tr : trenches)
+        {
+          WCase w; w.sph = true; w.has_cs = false;
+          w.family = std::string(fault ? "fault" : "slab") + " near a pole/" + tr.name;
+          const std::string feat = "{\"model\":\"" + std::string(fault ? "fault" : "subducting plate") + "\",\"name\":\"L\",\"coordinates\":" + tr.coords + ",\"dip point\":[0,0],"
+                                   "\"segments\":[{\"length\":1.5e6,\"thickness\":[1e5],\"angle\":[45]}],\"temperature models\":[{\"model\":\"uniform\",\"temperature\":600}],"
+                                   "\"composition models\":[{\"model\":\"uniform\",\"compositions\":[0]}]}";
+          w.text = world(coord(true), {feat});
+          const double south = tr.coords.find("-80") != std::string::npos ? -1.0 : 1.0;
+          for (double d : {0.0, 1e5, 5e5, 1e6})
+            {
+              const double r = R_EARTH - d;
+              w.pts.push_back({0, 0, d, true, {{0, 0, south*r}}, "exactly on the rotation axis"});
+              for (int k = 0; k < 24; ++k)
+                for (double off : {1e-6, 1e-3, 1.0, 1e3})
+                  w.pts.push_back({0, 0, d, true, {{off*std::cos(k*PI/12), off*std::sin(k*PI/12), south*std::sqrt(r*r - off*off)}}, "next to the rotation axis"});
+              for (double lon : {0.0, 10.05, 90.0, 180.0, -90.0}) for (double lat : {89.999999, 89.9, 89.0, 85.0, 80.0})
+                  w.pts.push_back({lon, south*lat, d, false, {{0,0,0}}, "polar cap"});
+            }
+          out.push_back(w);
+        }
+  }
+
+  // ---- family 6: thermal models of slabs with parameters at zero where zero is a meaningful setting ----
+  void family_zero_parameters(std::vector<WCase> &out)
+  {
+    struct Z { const char *name; std::string extra; };
+    const std::vector<Z> zs =
+    {
+      {"forearc cooling factor 0", "\"forearc cooling factor\":0"},
+      {"coupling depth 0", "\"coupling depth\":0"},
+      {"taper distance 0", "\"taper distance\":0"},
+      {"forearc cooling factor 0, coupling depth 0, taper distance 0", "\"forearc cooling factor\":0,\"coupling depth\":0,\"taper distance\":0"},
+      {"taper longer than the slab", "\"taper distance\":9e5"},
+      {"coupling depth below the slab tip", "\"coupling depth\":9e5"},
+      {"spline", "\"apply spline\":true,\"number of points in spline\":5"},
+      {"spline with one point", "\"apply spline\":true,\"number of points in spline\":1"},
+    };
+    for (int sph = 0; sph < 2; ++sph) for (double ridge_x : {-0.2, -6.0}) for (auto &z : zs)
+          {
+            const double s = sph ? 1.0 : 1e5;
+            WCase w; w.sph = sph; w.has_cs = false;
+            w.family = std::string("slab/mass conserving with ") + z.name + (ridge_x > -1 ? ", ridge next to the trench" : ", ridge far from the trench");
+            const std::string ridge = "[[" + pt({ridge_x*s, -10*s}) + "," + pt({ridge_x*s, 10*s}) + "]]";
+            const std::string tm = "{\"model\":\"mass conserving\",\"density\":3300,\"spreading velocity\":0.05,\"subducting velocity\":0.05,\"ridge coordinates\":" + ridge + ",\"min distance slab top\":-2e5,\"max distance slab top\":3e5," + z.extra + "}";
+            const std::string feat = "{\"model\":\"subducting plate\",\"name\":\"L\",\"coordinates\":[" + pt({0,-3*s}) + "," + pt({0.5*s,0}) + "," + pt({0,3*s}) + "],\"dip point\":" + pt({9*s,0}) +
+                                     ",\"segments\":[{\"length\":4e5,\"thickness\":[1e5],\"top truncation\":[-1e5],\"angle\":[30,60]}],\"temperature models\":[" + tm + "]}";
+            const std::string ocean = "{\"model\":\"oceanic plate\",\"name\":\"O\",\"max depth\":1e5,\"coordinates\":" + pts({{-8*s,-8*s},{8*s,-8*s},{8*s,8*s},{-8*s,8*s}}) +
+                                      ",\"temperature models\":[{\"model\":\"half space model\",\"max depth\":1e5,\"spreading velocity\":0.05,\"ridge coordinates\":" + ridge + "}]}";
+            w.text = world(coord(sph), {ocean, feat});
+            for (double x : {-0.5, 0.0, 0.25, 0.5, 0.6, 0.75, 1.0, 1.5, 2.0, 2.5, 3.0, 3.5, 4.0})
+              for (double y : {0.0, -1.5, 2.9})
+                for (double d : {0.0, 1.0, 1e4, 3e4, 5e4, 8e4, 1e5, 1.5e5, 2e5, 2.5e5, 3e5, 3.5e5})
+                  w.pts.push_back({x*s, y*s, d, false, {{0,0,0}}, "across the slab and the wedge above it"});
+            out.push_back(w);
+          }
+  }
+
   void run_world(const std::shared_ptr<std::vector<WCase>> &cases, uint64_t idx, Ctx &ctx)
   {
     static const int c_q = Ctx::counter_id("queries"), c_ex = Ctx::counter_id("queries_refused_with_exception"), c_rej = Ctx::counter_id("worlds_rejected_at_construction"), c_2d = Ctx::counter_id("queries_2d");
@@ -263,7 +335,7 @@ int main(int argc, char **argv)
   spec.property = "C13";
   spec.level = "exploration";
   spec.rule = "one world per member of four families (rich worlds; slabs and faults over 12 segment tables incl. zero length/thickness, dips 0/180, overturning arcs x thermal models incl. zero "
-              "velocities; area features and plumes with degenerate geometry/parameters; coincident cross-section points), both coordinate systems; every world is queried in the ASan+UBSan build at "
+              "velocities; area features and plumes with degenerate geometry/parameters; coincident cross-section points; slabs and faults next to a pole queried on and around the rotation axis; mass conserving slabs with optional parameters at zero or beyond the slab), both coordinate systems; every world is queried in the ASan+UBSan build at "
               "points placed ON the degenerate loci x 10 request lists (all single atoms and 3 batched) through the 3-D and 2-D interface; every value must be finite or a std::exception thrown; "
               "a sanitizer report, signal or watchdog expiry kills the worker and is a violation of that world. non-trivial: the world was built; worlds are distinct by construction";
   spec.assumptions = {"worlds that the constructor rejects are not judged here (C12)", "ASan + UBSan (incl. float-cast-overflow), 120 s watchdog per world"};
@@ -277,9 +349,11 @@ int main(int argc, char **argv)
     family_line(*cases, th);
     family_area(*cases, th);
     family_cs(*cases);
+    family_polar(*cases);
+    family_zero_parameters(*cases);
     std::vector<Suite> s(1);
     s[0].name = "worlds"; s[0].n = cases->size(); s[0].run = [cases](uint64_t i, Ctx &c) { run_world(cases, i, c); };
-    s[0].bound = std::to_string(cases->size()) + " worlds (rich 6, line features " + (th ? "full" : "reduced") + " product of 12 segment tables x thermal models x {slab,fault} x {cartesian,spherical}, 18 degenerate area/plume set-ups, 2 degenerate cross sections)";
+    s[0].bound = std::to_string(cases->size()) + " worlds (rich 6, line features " + (th ? "full" : "reduced") + " product of 12 segment tables x thermal models x {slab,fault} x {cartesian,spherical}, 18 degenerate area/plume set-ups, 2 degenerate cross sections, 10 slabs/faults next to a pole queried on and around the rotation axis, 32 mass conserving slabs with zero / extreme optional parameters)";
     return s;
   });
 }
